@@ -395,6 +395,15 @@ func runRns(seed int64, histories, steps int, out *Emitter) {
 				{Name: "ab", Tld: "jkl", Expires: int64(10 + r.Intn(20)), Value: users[1].String(), Data: "{}", Subdomains: []*rnstypes.Names{}},
 				{Name: "q", Tld: "ibc", Expires: int64(25 + r.Intn(10)), Value: users[2].String(), Data: "{}", Subdomains: []*rnstypes.Names{}, Locked: int64(8 + r.Intn(10))},
 			}
+			if hi%3 == 2 {
+				// a grown name service: more names (and a few open listings) than one listing page holds
+				for n := 0; n < 108; n++ {
+					g.NamesList = append(g.NamesList, rnstypes.Names{Name: fmt.Sprintf("seeded%03d", n), Tld: "jkl", Expires: int64(5_000_000 + n), Value: users[n%4].String(), Data: "{}", Subdomains: []*rnstypes.Names{}})
+				}
+				for n := 0; n < 3; n++ {
+					g.ForSaleList = append(g.ForSaleList, rnstypes.Forsale{Name: fmt.Sprintf("seeded%03d.jkl", n), Price: "1000ujkl", Owner: users[n%4].String()})
+				}
+			}
 			gs[rnstypes.ModuleName] = a.AppCodec().MustMarshalJSON(g)
 		}
 		c := NewChain(4, []string{"ujkl", "utest"}, mut)
